@@ -74,15 +74,15 @@ type seqItem struct {
 }
 
 type seqChild struct {
-	Op      string         `json:"op"`
-	Key     [16]byte       `json:"key"`
-	PreKey  [16]byte       `json:"prekey"` // state key before the last operation (must equal the parent's key)
-	Enabled []string       `json:"enabled"`
+	Op      string           `json:"op"`
+	Key     [16]byte         `json:"key"`
+	PreKey  [16]byte         `json:"prekey"` // state key before the last operation (must equal the parent's key)
+	Enabled []string         `json:"enabled"`
 	Viols   []*eng.Violation `json:"viols,omitempty"`
-	Fatal   bool           `json:"fatal,omitempty"`
-	Outcome string         `json:"outcome"`
-	Cov     map[string]int `json:"cov"`
-	Verdict string         `json:"verdict"`
+	Fatal   bool             `json:"fatal,omitempty"`
+	Outcome string           `json:"outcome"`
+	Cov     map[string]int   `json:"cov"`
+	Verdict string           `json:"verdict"`
 }
 
 type seqReply struct {
